@@ -20,6 +20,7 @@ import (
 
 	"github.com/free5gc/go-upf/internal/verif/fullstack"
 	"github.com/free5gc/go-upf/internal/verif/rxwindow"
+	"github.com/free5gc/go-upf/internal/verif/simkernel"
 	"github.com/free5gc/go-upf/internal/verif/stack"
 	"github.com/free5gc/go-upf/internal/verif/vcore"
 )
@@ -90,6 +91,7 @@ type Result struct {
 	Reported      int      `json:"reported"`             // sessions one tick reports
 	InFlight      int      `json:"in_flight"`            // notifications written while the loop was busy
 	Lost          string   `json:"lost,omitempty"`       // a notification consumed by the listener that never reached its packet queue
+	Checked       int      `json:"checked,omitempty"`    // usage reports that reached the SMF and were compared with what the data plane had measured for their session
 	Unanswered    string   `json:"unanswered,omitempty"` // a request that is never answered although the loop is alive
 	TimerExpiries int      `json:"timer_expiries,omitempty"`
 	HeldFull      bool     `json:"held_full,omitempty"` // the tick's query was inside the data plane while the periodic server's queue filled up
@@ -316,6 +318,10 @@ func runScript(s Script) (res Result) {
 		return
 	}
 	f.D.K.Latency = time.Duration(s.LatencyUs) * time.Microsecond
+	// what the data plane measures tells sessions and URRs apart: a report that reaches the SMF must carry its own session's values
+	f.D.K.UsageFor = func(op string, k simkernel.RuleKey) simkernel.Usage {
+		return simkernel.Usage{TotVol: k.SEID<<16 | k.ID, UlVol: 1, DlVol: 2, Start: time.Unix(1700000000, 0), End: time.Unix(1700000100, 0)}
+	}
 	r := f.R
 	wedge := func(what string) bool {
 		if f.S.Dead != nil {
@@ -563,6 +569,33 @@ func runScript(s Script) (res Result) {
 			}
 			return
 		}
+		// every report forwarded - as the report it was: the usage reports that reached the SMF for a session carry that session's
+		// own measurements (datagrams lost in a socket buffer are not counted, only what arrived is looked at)
+		if fo.Retrans == 0 && len(s.Real) == 0 {
+			ob := &stack.Obs{Rx: map[int][]stack.Datagram{}, Msgs: map[int][]message.Message{}, NewSess: -1}
+			r.Collect(ob)
+			upOf := map[uint64]uint64{}
+			for _, ss := range r.Sess {
+				upOf[ss.CP] = ss.UP
+			}
+			for _, q := range ob.SRRs {
+				up, known := upOf[q.SEID]
+				for _, d := range stack.UsageDetails(q.Msg) {
+					if !known || d.Vol == nil {
+						continue
+					}
+					if want := up<<16 | uint64(d.URR); d.Vol.TotalVolume != want {
+						res.OK = false
+						res.Lost = fmt.Sprintf("a usage report for URR %d reached the SMF under CP SEID %#x (session %#x) with total volume %#x: that is what the data plane measured for session %#x, URR %d", d.URR, q.SEID, up, d.Vol.TotalVolume, d.Vol.TotalVolume>>16, d.Vol.TotalVolume&0xffff)
+						return
+					}
+					res.Checked++
+				}
+			}
+			for k := range r.Pending {
+				r.Pending[k] = nil
+			}
+		}
 		// every report eventually forwarded: each notification written for a session that is still there has been queued
 		// for its PDR (up to the queue's capacity of 512)
 		if s.Bulk == "none" && len(s.Real) == 0 {
@@ -768,6 +801,9 @@ func account(s Script, r Result) {
 	if s.Window != nil && r.TimerExpiries > 64 {
 		vcore.E.Class("more_than_64_timer_expiries_while_the_loop_was_busy")
 		vcore.E.NonTrivial(vcore.JSON(s))
+	}
+	if r.Checked > 0 {
+		vcore.E.ClassN("usage_reports_compared_with_their_session's_measurements", int64(r.Checked))
 	}
 	if r.HeldFull {
 		vcore.E.Class("tick_query_in_the_data_plane_while_the_timer_queue_filled_up")
